@@ -10,7 +10,7 @@ from props import kern
 
 RULE = ("the extension is re-cythonized and compiled from /repo's shapley_cy.pyx for this run; random kernel argument arrays on a size ladder "
         "(1 .. 2000 units quick, .. 65536 thorough; 1-130 validation points; 1-6 classes; tie groups; utilities up to 1e6): (i) rebuilt-cy vs Python "
-        "reference within 8*n*2^-53*scale, (ii) each vs the exact rational model Ds.Kernel.importances (n <= 400) within 1e-9*(1+scale), (iii) rebuilt-cy "
+        "reference within 8*n*2^-53*scale, (ii) each vs the exact rational model Ds.Kernel.importances (n <= 400) within 1e-9*(1+scale), (iii) every kernel call is repeated on the SAME argument arrays, which must come back byte-identical and give the same vector; (iv) rebuilt-cy "
         "vs the Float instance of the same model function bit for bit (n <= 2000, recorded). Non-trivial = >= 2 units with >= 2 labels and non-constant "
         "utilities; distinct = distinct (size, seed-derived content) cases.")
 
@@ -36,17 +36,30 @@ def run(ctx):
             small_case = dict(labels=labels.tolist(), dist=dist.tolist(), util=util.tolist(), nulls=nulls.tolist()) if n <= 8 else case
             out = {}
             ords = {}
+            reuse_bad = None
             for name, fn in (("cy", I["kernel_cy"]), ("py", I["kernel_py"])):
                 store = []
                 try:
+                    # the caller's arrays are handed over as they are, kept, compared byte for byte afterwards and handed over AGAIN: "for any arguments
+                    # the compiled kernel returns the same vector as the reference kernel" includes arguments that were already used once
+                    args = (labels.copy(), dist.copy(), util.copy(), nulls.copy())
+                    before = [a.tobytes() for a in args]
                     with kern.record_argsort(store):
-                        out[name] = np.asarray(fn(labels.copy(), dist.copy(), util.copy(), nulls.copy()), dtype=float)
+                        out[name] = np.asarray(fn(*args), dtype=float)
                     ords[name] = kern.orders_from(store, n, m)
+                    changed = [nm for nm, a, b in zip(("unit_labels", "unit_distances", "label_utilities", "null_scores"), args, before) if a.tobytes() != b]
+                    again = np.asarray(fn(*args), dtype=float)
+                    if changed or again.tobytes() != out[name].tobytes():
+                        reuse_bad = reuse_bad or dict(kernel=name, arguments_modified=changed, first=out[name].tolist()[:8], second=again.tolist()[:8])
                 except Exception as e:  # noqa
                     out[name] = exc_name(e) + ": " + repr(e)
             nontriv = n >= 2 and len(set(labels[:, 0].tolist())) >= 2 and len(set(util[:, 0].tolist())) >= 2
             ctx.case(("c13", n, rep, m, c), nontrivial=nontriv, sample=(small_case if n <= 5 else None), n=n, ties=ties)
             ctx.maxi(units=n, val_points=m, classes=c, scale=scale)
+            if reuse_bad is not None:
+                ctx.mismatch("a kernel modified its arguments / returned another vector when called again on the same arrays (the reference kernel run on arrays the "
+                             "compiled kernel has seen would no longer agree with it)", small_case, impl=reuse_bad)
+                continue
             if isinstance(out["cy"], str) or isinstance(out["py"], str):
                 ctx.mismatch("a kernel raised", small_case, impl={k: (v if isinstance(v, str) else "ok") for k, v in out.items()})
                 continue
